@@ -17,6 +17,8 @@ pub use crate::reader::ShmReader;
 pub use crate::writer::{ShmWrite, ShmWriter};
 
 pub mod common;
+#[cfg(clock_bound_verif)]
+pub mod verif;
 mod reader;
 mod shm_header;
 mod writer;
